@@ -566,3 +566,9 @@ func VQiRetag(tx *types.Transaction, chainID *big.Int) *types.Transaction {
 	inner.TxOut = append(inner.TxOut, tx.TxOut()...)
 	return types.NewTx(inner)
 }
+
+// VInboundEtxs: the inbound ETX list the dominant chain handed down with a dom-coincident block, as
+// stored by the zone (empty for zone-order blocks).
+func (n *VNode) VInboundEtxs(blk *types.WorkObject) types.Transactions {
+	return rawdb.ReadInboundEtxs(n.DB[2], blk.Hash())
+}
